@@ -319,7 +319,8 @@ def main():
         'not_applicable': na,
         'notes': 'See DESIGN.md. known_findings.json lists recorded findings and fixed defects. Beyond the listed properties the '
                  'specification also covers the decision layer of rsatoolbox.vis (specs/PlotDecisions.tla, ./check X01, evidence '
-                 'in evidence_extra/; DESIGN.md section 5.1) - not a claimed check because it decides none of the listed properties.',
+                 'in evidence_extra/; DESIGN.md section 5.1) and of Result.summary() (specs/ResultSummary.tla, ./check X02) - not claimed '
+                 'checks because they decide none of the listed properties.',
     }
     out = os.path.join(HERE, 'MANIFEST.json')
     json.dump(man, open(out, 'w'), indent=1)
